@@ -34,11 +34,13 @@ import (
 	"net/http"
 	"os"
 	"os/exec"
+	"os/signal"
 	"path/filepath"
 	"sort"
 	"strings"
 	"sync"
 	"sync/atomic"
+	"syscall"
 	"time"
 
 	"github.com/gorilla/websocket"
@@ -62,6 +64,17 @@ import (
 
 func serve() {
 	root := os.Getenv("VERIF_ROOT")
+	// a crash in the middle of a write: with a file-size limit the kernel kills the process (SIGXFSZ) at the write
+	// that would take a regular file beyond it -- no hook needed, whatever path the code takes to the file
+	if n := vt.EnvInt("VERIF_FSIZE", 0); n > 0 {
+		syscall.Setrlimit(syscall.RLIMIT_FSIZE, &syscall.Rlimit{Cur: uint64(n), Max: uint64(n)})
+		if os.Getenv("VERIF_FSIZE_KILL") != "" {
+			// die at that write (the Go runtime otherwise turns the signal into an EFBIG error of the write)
+			c := make(chan os.Signal, 1)
+			signal.Notify(c, syscall.SIGXFSZ)
+			go func() { <-c; os.Exit(3) }()
+		}
+	}
 	group.Directory = filepath.Join(root, "groups")
 	group.DataDirectory = filepath.Join(root, "data")
 	diskwriter.Directory = filepath.Join(root, "recordings")
@@ -151,6 +164,8 @@ type server struct {
 	log   *bytes.Buffer
 	crash string
 	delay string
+	fsize int // file-size limit of the NEXT start only
+	fkill bool
 }
 
 func freePort() int {
@@ -171,6 +186,13 @@ func (s *server) start() error {
 	}
 	if s.delay != "" {
 		s.cmd.Env = append(s.cmd.Env, "VERIF_DELAY="+s.delay)
+	}
+	if s.fsize > 0 {
+		s.cmd.Env = append(s.cmd.Env, fmt.Sprint("VERIF_FSIZE=", s.fsize))
+		if s.fkill {
+			s.cmd.Env = append(s.cmd.Env, "VERIF_FSIZE_KILL=1")
+		}
+		s.fsize = 0
 	}
 	os.Remove(s.root + ".hooks")
 	s.cmd.Env = append(s.cmd.Env, "VERIF_HOOKLOG="+s.root+".hooks")
@@ -344,8 +366,9 @@ func (d *driver) waitTracks(id string, n, ms int) {
 				} else {
 					same = 0
 				}
-				// complete for 450 ms (the server pushes a connection 200 ms after its last track arrived) and nothing moved for 300 ms
-				if time.Since(since) > 450*time.Millisecond && same >= 3 {
+				// complete for 700 ms (the server pushes a connection 200 ms after its last track arrived; the margin is for a
+				// loaded machine) and nothing moved for 400 ms
+				if time.Since(since) > 700*time.Millisecond && same >= 4 {
 					stable = 1
 					break
 				}
@@ -1379,6 +1402,8 @@ type beh struct {
 	Crash   string         `json:"crash"`
 	Roots   bool           `json:"roots"`
 	Delay   string         `json:"delay"`
+	Fsize   int            `json:"fsize"`
+	Fkill   bool           `json:"fkill"`
 }
 
 func num(x any) int {
@@ -1393,6 +1418,8 @@ func (d *driver) runBeh(b beh, idx int) {
 	d.fixture(b.Fixture)
 	d.srv.crash = b.Crash
 	d.srv.delay = b.Delay
+	d.srv.fsize = b.Fsize
+	d.srv.fkill = b.Fkill
 	d.roots = b.Roots
 	if err := d.srv.start(); err != nil {
 		d.emit(map[string]any{"ev": "New", "name": b.Name, "idx": idx})
